@@ -622,6 +622,9 @@ class Sym:
             # the empty-container constructors are the empty displays (builtins not rebound locally)
             lit = {"dict": ast.Dict(keys=[], values=[]), "list": ast.List(elts=[], ctx=ast.Load()), "tuple": ast.Tuple(elts=[], ctx=ast.Load())}[fn.id]
             return self.ev(lit, at, depth + 1)
+        if isinstance(fn, ast.Name) and fn.id == "getattr" and len(e.args) == 2 and not e.keywords and isinstance(e.args[1], ast.Constant) and isinstance(e.args[1].value, str) and e.args[1].value.isidentifier():
+            # getattr(x, "name") is x.name
+            return self.ev(ast.copy_location(ast.Attribute(value=e.args[0], attr=e.args[1].value, ctx=ast.Load()), e), at, depth + 1)
         if isinstance(fn, ast.Name) and not e.keywords:
             if fn.id == "abs" and len(e.args) == 1:
                 p, _ = self.ev(e.args[0], at, depth + 1).sign_normalised()
@@ -881,6 +884,8 @@ def cmp_key(c) -> str:
 
 def ite_atom(c, a: "Poly", b: "Poly") -> "Poly":
     """Value id of `a if c else b`, oriented canonically: `b if not c else a` is the same atom."""
+    if c[0] == "truthy" and c[1] == "True":
+        return a if c[2] else b          # a condition whose truth is known
     nc = cmp_negate(c)
     if cmp_key(nc) < cmp_key(c):
         c, a, b = nc, b, a
